@@ -145,6 +145,7 @@ impl Node {
                     ..Default::default()
                 };
                 let ancient = if *freezer {
+                    std::fs::create_dir_all(root.join("ancient")).expect("create ancient dir");
                     Some(root.join("ancient"))
                 } else {
                     None
